@@ -25,17 +25,20 @@ QUICK_GROUPS = [["using", "do_on_subscribe", "do_on_dispose", "do_observer", "do
 JVM = {"JAVA_TOOL_OPTIONS": "-XX:TieredStopAtLevel=1 -XX:ParallelGCThreads=2"}   # short runs on a shared box: C1 only, few GC threads
 
 
-def export(ck, consts, label, groups=GROUPS, simulate=None, seed=None, timeout=1800):
-    def one(g):
+def export(ck, tasks, timeout=1800):
+    """tasks: (label, constants, operator group, simulate, seed) - one TLC invocation each, four at a time.
+    Returns the export lines per label."""
+    def one(t):
+        label, consts, g, simulate, seed = t
         c = dict(consts)
         c["Ops"] = set(g)
         return tlc.run("OpsResource", tlc.cfg_text(c, invariants=rc.C40_INVS + ["Export"]), workers=1, timeout=timeout,
                        xmx="2g", allow_violation=False, simulate=simulate, seed=seed, depth=40 if simulate else None, env_extra=JVM)
-    lines = []
+    lines = {}
     with ThreadPoolExecutor(4) as ex:
-        for g, res in zip(groups, ex.map(one, groups)):
-            ck.add_tlc(res, f"{label} {','.join(g)}")
-            lines += res.lines
+        for t, res in zip(tasks, ex.map(one, tasks)):
+            ck.add_tlc(res, f"{t[0]} {','.join(t[2])}")
+            lines.setdefault(t[0], []).extend(res.lines)
     return lines
 
 
@@ -44,15 +47,21 @@ def run(tier: str) -> int:
     k = 2
     if tier == "quick":
         consts = dict(NVals=k, MaxLen=2, Terms={"C", "E", "U"}, MaxSubs=2, Disposes=True, Faults=True, Dsp2="few", Canon=True)
-        lines = export(ck, consts, "exhaustive", groups=QUICK_GROUPS)
+        lines = export(ck, [("exhaustive", consts, g, None, None) for g in QUICK_GROUPS])["exhaustive"]
     else:
-        consts = dict(NVals=k, MaxLen=3, Terms={"C", "E", "U"}, MaxSubs=2, Disposes=True, Faults=True, Dsp2="all", Canon=False)
-        lines = export(ck, consts, "exhaustive")
+        # two subscriptions with every pair of dispose points on the canonical timelines; every timeline over two
+        # tokens with one subscription
+        consts = dict(NVals=k, MaxLen=3, Terms={"C", "E", "U"}, MaxSubs=2, Disposes=True, Faults=True, Dsp2="all", Canon=True)
+        one_sub = dict(consts, MaxSubs=1, Canon=False)
         # longer timelines, three value tokens: sampled behaviours.  A simulated behaviour shows ONE resolution of the
         # model's only nondeterminism (a failed factory's error racing a dispose at the subscription instant):
         # those scenarios are judged in the exhaustive part only
-        deep = dict(consts, NVals=3, MaxLen=4)
-        sim = export(ck, deep, "simulate", simulate="num=5000", seed=ck.seed + 3)
+        deep = dict(consts, NVals=3, MaxLen=4, Canon=False)
+        got = export(ck, [("exhaustive canonical x 2 subscriptions", consts, g, None, None) for g in GROUPS]
+                     + [("exhaustive all timelines x 1 subscription", one_sub, g, None, None) for g in GROUPS]
+                     + [("simulate", deep, g, "num=5000", ck.seed + 3) for g in GROUPS])
+        sim = got.pop("simulate")
+        lines = [ln for part in got.values() for ln in part]
         amb = lambda scn: scn["flt"]["w"] in ("resfac", "obsfac") and 0 in scn["dsp"]
         ck.note("simulated_scenarios_skipped_as_ambiguous", sum(1 for ln in sim if amb(ln["scn"])))
         lines += [ln for ln in sim if not amb(ln["scn"])]
